@@ -443,7 +443,10 @@ def run(ctx):
         ok = g is not None and astq.text(g.test) in ("self.respect_retry_after_header and response", "response and self.respect_retry_after_header")
         ctx.ob(R12, sl.qual, "guarded by respect_retry_after_header and response", ok, astq.text(g.test) if g is not None else "unguarded", node=c)
     sfr = m.method(RETRY, "sleep_for_retry")
-    ok = any(isinstance(n, ast.If) and astq.text(n.test) == "retry_after" for n in astq.walk_fn(sfr.node))
+    ok = any(isinstance(n, ast.If) and isinstance(n.test, ast.Name)
+             and any(isinstance(sv, ast.Call) and astq.call_text(sv) == "self.get_retry_after" for sv in astq.sources_of(sfr.node, n.test))
+             and any(astq.call_text(c) == "time.sleep" for c in astq.calls(ast.Module(body=n.body, type_ignores=[])))
+             for n in astq.walk_fn(sfr.node))
     ctx.ob(R12, sfr.qual, "sleeps only for a positive Retry-After", ok)
 
 
